@@ -971,6 +971,12 @@ func (r *Route) UnmarshalYAML(unmarshal func(any) error) error {
 		return errors.New("repeat_interval cannot be zero")
 	}
 
+	for _, sr := range r.Routes {
+		if sr == nil {
+			return errors.New("empty route in routes list")
+		}
+	}
+
 	return nil
 }
 
